@@ -1149,6 +1149,7 @@ fn litmus() -> Vec<(&'static str, SchedCase)> {
         ("insert; sync || 400 gets (read queue full)", SchedCase { cfg: base(Some(2), None), init: vec![ins(0, 1), TOp::Sync], threads: vec![vec![ins(1, 1), TOp::Sync], vec![TOp::Gets { k: 0, n: 400 }, get(0)]], preempt: vec![], first: 0, patience: 0 }),
         ("insert; sync || 400 inserts of fresh keys; update; get (write queue full)", SchedCase { cfg: base(None, None), init: vec![ins(0, 1), TOp::Sync], threads: vec![vec![ins(1, 1), TOp::Sync], vec![TOp::Fill { n: 400 }, ins(0, 2), get(0)]], preempt: vec![], first: 0, patience: 0 }),
         ("insert || exactly one write queue of inserts (the queue is full when the inserter's own maintenance pass ends)", SchedCase { cfg: base(None, None), init: vec![ins(0, 1), TOp::Sync], threads: vec![vec![ins(1, 1), get(1)], vec![TOp::Fill { n: 384 }]], preempt: vec![], first: 0, patience: 0 }),
+        ("insert || fill the write queue; invalidate (an invalidation that meets a full write queue)", SchedCase { cfg: base(None, None), init: vec![ins(0, 1), TOp::Sync], threads: vec![vec![ins(1, 1), get(1)], vec![TOp::Fill { n: 384 }, TOp::Invalidate { k: 0 }, get(0)]], preempt: vec![], first: 0, patience: 0 }),
         ("growing update; sync || update of one resident || update of the other (all nodes dirty during the eviction pass)", SchedCase { cfg: base(Some(2), None), init: vec![ins(0, 1), ins(1, 1), TOp::Sync], threads: vec![vec![ins(1, 3), TOp::Sync], vec![ins(0, 1)], vec![ins(1, 3)]], preempt: vec![], first: 0, patience: 0 }),
         ("insert; get || advance; invalidate_all; insert; get (an insert that read the clock before invalidate_all lands after it)", SchedCase { cfg: base(None, None), init: vec![ins(0, 1), TOp::Sync], threads: vec![vec![ins(0, 1), get(0)], vec![TOp::Advance { ns: 1 }, TOp::InvalidateAll, ins(0, 1), get(0)]], preempt: vec![], first: 0, patience: 0 }),
         ("invalidate_all || invalidate_all (clock advancing)", SchedCase { cfg: base(None, None), init: vec![ins(0, 1), TOp::Advance { ns: 1 }], threads: vec![vec![TOp::InvalidateAll], vec![TOp::Advance { ns: 1 }, ins(1, 1), TOp::Advance { ns: 1 }, TOp::InvalidateAll, get(1)]], preempt: vec![], first: 0, patience: 0 }),
